@@ -63,8 +63,7 @@ def has_call(path, callee):
 def handler_of(path):
     """the handle_* method dispatched on this onMessage path, or None"""
     for e in path.events:
-        if e["k"] == "call" and e["callee"].startswith("WebSocketServer.handle_") \
-                and len(e["stack"]) == 2:
+        if e["k"] == "call" and e["callee"].startswith("WebSocketServer.handle_"):
             return e["callee"].split(".")[1]
     return None
 
@@ -207,3 +206,35 @@ def each_event(model, entries, kinds=None):
                     if e["k"] == "loop":
                         for alt in e["alts"]:
                             stack.append((alt["events"], loops + (e,)))
+
+
+def expand_merges(interp, term, pc=(), limit=4096):
+    """all (pc, value) alternatives of a term whose value (or sub-terms) were
+    merged over the branches of pure callees, nested merges included"""
+    from .terms import walk
+    inner = None
+    if term[0] == "merge":
+        inner = term
+    else:
+        for x in walk(term):
+            if x[0] == "merge":
+                inner = x
+                break
+    if inner is None:
+        return [(tuple(pc), term)]
+    out = []
+    for (apc, aval) in interp.merges[inner]:
+        new_term = aval if inner is term else _subst(term, inner, aval)
+        out.extend(expand_merges(interp, new_term, tuple(pc) + tuple(apc), limit))
+        if len(out) > limit:
+            from .repo import AnalysisError
+            raise AnalysisError("too many merged alternatives")
+    return out
+
+
+def _subst(t, old, new):
+    if t == old:
+        return new
+    if not isinstance(t, tuple):
+        return t
+    return tuple(_subst(x, old, new) if isinstance(x, tuple) else x for x in t)
